@@ -316,8 +316,12 @@ def select_groups(prop, tier, only=None):
             continue
         if g.get("tier") == "quick-only" and tier != "quick":
             continue
-        if only and only not in g["id"] and not any(only in h for h in g["harnesses"]):
-            continue
+        if only and only not in g["id"]:
+            if not any(only in h or h in only for h in g["harnesses"]):
+                continue
+            g = dict(g)
+            g["harnesses"] = [only]
+            g.pop("expect_harnesses", None)
         gs.append(g)
     return gs
 
